@@ -285,7 +285,7 @@ pub fn run_once(layout: &Layout, cfg: &EnvCfg, prefix: &[u16], fail_at: Option<u
 // Oracle: the first discrepancy of an execution, classified by where it occurs
 
 #[derive(Clone, Debug)]
-pub struct Discrepancy { pub prop: &'static str, pub also: Option<&'static str>, pub clause: &'static str, pub detail: String, pub at_call: usize }
+pub struct Discrepancy { pub prop: &'static str, pub also: Vec<&'static str>, pub clause: &'static str, pub detail: String, pub at_call: usize }
 
 fn fold(held: &mut Vec<KeyCode>, evs: &[Event]) {
   for e in evs { match e { Pressed(k) => { if !held.contains(k) { held.push(*k); } } Released(k) => held.retain(|x| x != k) } }
@@ -323,7 +323,7 @@ pub fn judge(layout: &Layout, x: &Exec) -> (Option<Discrepancy>, Stats) {
   // once a tablet event has been read, what the loop writes for key events is C12's subject ("resumes as from a fresh start"; C10 sets tablet mode aside)
   let mut seen_tablet = false;
   let absorbable: Vec<KeyCode> = layout.mappings.iter().flat_map(|m| m.absorbing.iter().cloned()).collect();
-  let d = |prop, clause, detail: String, at| Some(Discrepancy { prop, also: None, clause, detail, at_call: at });
+  let d = |prop, clause, detail: String, at| Some(Discrepancy { prop, also: vec![], clause, detail, at_call: at });
   let step_prop = |seen_tablet: bool| if seen_tablet { "C12" } else { "C10" };
   for (i, c) in x.log.iter().enumerate() {
     if matches!(c, Call::Failed { .. }) { break; }
@@ -346,30 +346,43 @@ pub fn judge(layout: &Layout, x: &Exec) -> (Option<Discrepancy>, Stats) {
       Call::Register => {}
       Call::Failed { .. } => { break; }
       Call::Send { evs, .. } => {
-        if st.ended { return (d("C10", "write-after-end-of-device", format!("{} written after the device reported it is gone", ev_str(evs)), i), st); }
+        // the device-level half of C19: against the fold of everything written so far, a key is pressed only when it is up
+        // and released only when it is down (timer chords are C11's, handled above).  A write that is wrong for another
+        // reason as well belongs to both statements; the resumption after a tablet-mode change is also C06's subject.
+        let redundant: Option<Event> = { let mut h = held.clone(); let mut bad = None; for e in evs.iter() { match e { Pressed(k) => { if h.contains(k) { bad = Some(e.clone()); break; } h.push(*k); } Released(k) => { if !h.contains(k) { bad = Some(e.clone()); break; } h.retain(|x| x != k); } } } bad };
+        let held_at_send = held.clone();
+        let mut dd: Option<Discrepancy> = (|| {
+        if st.ended { return d("C10", "write-after-end-of-device", format!("{} written after the device reported it is gone", ev_str(evs)), i); }
         match owed.pop_front() {
           Some(Expect::Step(exp)) => {
-            if *evs != exp { return (d(step_prop(seen_tablet), if seen_tablet { "not-a-fresh-start-after-tablet-mode" } else { "wrong-step-output-written" }, format!("written {} expected {} output {}", ev_str(evs), if seen_tablet { "a fresh mapper's" } else { "the mapper's" }, ev_str(&exp)), i), st); }
+            if *evs != exp { return d(step_prop(seen_tablet), if seen_tablet { "not-a-fresh-start-after-tablet-mode" } else { "wrong-step-output-written" }, format!("written {} expected {} output {}", ev_str(evs), if seen_tablet { "a fresh mapper's" } else { "the mapper's" }, ev_str(&exp)), i); }
             fold(&mut held, evs); st.steps_sent += 1; last_poll_timed_out = false;
           }
           Some(Expect::Reset) => {
             fold(&mut held, evs);
-            if !held.is_empty() { return (d("C12", "reset-leaves-keys-held", format!("reset batch {} leaves {:?} held", ev_str(evs), held), i), st); }
-            if evs.iter().any(|e| matches!(e, Pressed(_))) { return (d("C12", "reset-presses-keys", format!("reset batch {} presses keys", ev_str(evs)), i), st); }
+            if !held.is_empty() { return d("C12", "reset-leaves-keys-held", format!("reset batch {} leaves {:?} held", ev_str(evs), held), i); }
+            if evs.iter().any(|e| matches!(e, Pressed(_))) { return d("C12", "reset-presses-keys", format!("reset batch {} presses keys", ev_str(evs)), i); }
             st.resets_sent += 1; last_poll_timed_out = false;
           }
           Some(Expect::Chord(_)) => unreachable!(),
           None => {
-            if tablet { return (d("C12", "write-during-tablet-mode", format!("{} written while in tablet mode", ev_str(evs)), i), st); }
+            if tablet { return d("C12", "write-during-tablet-mode", format!("{} written while in tablet mode", ev_str(evs)), i); }
             if last_poll_timed_out {
               // "no repeat chord is written at any other time" (C11); when the timer had been cancelled by a tablet-mode change it is
               // equally a failure to "resume as from a fresh start" (C12): the discrepancy belongs to both statements
               let mut dd = d("C11", "chord-at-wrong-time", format!("{} written after a time-out although no chord was due (timer {:?}{})", ev_str(evs), timer.as_ref().map(|t| (t.1, t.2)), if timer_cancelled_by_tablet { ", cancelled by a tablet-mode change" } else { "" }), i);
-              if timer_cancelled_by_tablet { if let Some(x) = dd.as_mut() { x.also = Some("C12"); } }
-              return (dd, st);
+              if timer_cancelled_by_tablet { if let Some(x) = dd.as_mut() { x.also.push("C12"); x.also.push("C06"); } }
+              return dd;
             }
-            return (d(step_prop(seen_tablet), if seen_tablet { "not-a-fresh-start-after-tablet-mode" } else { "unexpected-write" }, format!("{} written although {} produced no output to write", ev_str(evs), if seen_tablet { "a mapper started afresh at the last tablet-mode change" } else { "the mapper" }), i), st);
+            return d(step_prop(seen_tablet), if seen_tablet { "not-a-fresh-start-after-tablet-mode" } else { "unexpected-write" }, format!("{} written although {} produced no output to write", ev_str(evs), if seen_tablet { "a mapper started afresh at the last tablet-mode change" } else { "the mapper" }), i);
           }
+        }
+        None })();
+        if dd.is_none() { if let Some(e) = &redundant { dd = d("C19", "redundant-event-written-to-device", format!("{} written while {:?} are held on the virtual keyboard: {:?} is redundant", ev_str(evs), held_at_send, e), i); } }
+        if let Some(mut x) = dd {
+          if redundant.is_some() && x.prop != "C19" { x.also.push("C19"); }
+          if x.clause == "not-a-fresh-start-after-tablet-mode" { x.also.push("C06"); }
+          return (Some(x), st);
         }
       }
       Call::Poll { timeout_us, at_us, ret, after_us, unread_k, unread_t, label } => {
@@ -582,7 +595,7 @@ pub fn explore_family(ctx: &Ctx, fam: &BFamily, own_prop: &str, inject: bool, ca
           }
           if x.trace.len() > 0 && x.now_calls == 0 && st.timers_started > 0 { agg.machinery = Some("the loop armed a timer without reading the virtual clock: Instant/thread are no longer shadowed".into()); }
           if let Some(dc) = disc {
-            if dc.prop == own_prop || dc.also == Some(own_prop) {
+            if dc.prop == own_prop || dc.also.contains(&own_prop) {
               agg.add_viol((own_prop.to_string(), dc.clause.to_string()), (1, x.trace.iter().map(|t| t.0).collect(), dc.detail.clone(), None));
             } else { *agg.foreign.entry(format!("{}/{}", dc.prop, dc.clause)).or_insert(0) += 1; }
           }
